@@ -326,19 +326,26 @@ def correspond(ctx):
 
 
 def seeds_reach(ctx):
-    """Tie reachability on the implementation (a test, labelled as such): sweep seeds on a tied array."""
-    from skactiveml.utils import rand_argmax
+    """Tie reachability and reproducibility on the implementation (a test, labelled as such): sweep seeds on tied
+    arrays (1-d max / min, 2-d with axis=None and axis=1)."""
+    from skactiveml.utils import rand_argmax, rand_argmin
 
     a = np.array([1.0, 3.0, np.nan, 3.0, 3.0, 0.0])
-    got = set()
-    for s in range(60):
-        got.add(int(rand_argmax(a, random_state=s)[0]))
-    ctx.notes["tie_reachability_seed_sweep"] = sorted(got)
-    if got != {1, 3, 4}:
-        ctx.violate("C18/rand_argmax/tie-unreachable", f"60 seeds reached only {sorted(got)} of the tied maxima [1,3,4]", dict(fn="rand_argmax", a=a, seeds="0..59"))
-    r1 = [int(rand_argmax(a, random_state=7)[0]) for _ in range(3)]
-    if len(set(r1)) != 1:
-        ctx.violate("C18/rand_argmax/not-reproducible", "same seed, different result", dict(fn="rand_argmax", a=a, seed=7))
+    m = np.array([[2.0, -1.0, np.nan], [-1.0, 5.0, -1.0]])
+    sweeps = [
+        ("rand_argmax", lambda s: int(rand_argmax(a, random_state=s)[0]), {1, 3, 4}),
+        ("rand_argmin", lambda s: int(rand_argmin(-a, random_state=s)[0]), {1, 3, 4}),
+        ("rand_argmin-2d", lambda s: tuple(int(x) for x in rand_argmin(m, random_state=s)), {(0, 1), (1, 0), (1, 2)}),
+        ("rand_argmin-axis1", lambda s: int(rand_argmin(m, random_state=s, axis=1)[1]), {0, 2}),
+    ]
+    for name, f, want in sweeps:
+        got = {f(s) for s in range(80)}
+        ctx.notes[f"tie_reachability_{name}"] = sorted(got)
+        if got != want:
+            ctx.violate(f"C18/{name}/tie-unreachable", f"80 seeds reached {sorted(got)} instead of exactly the tied optima {sorted(want)}",
+                        dict(fn=name, seeds="0..79"))
+        if len({f(7) for _ in range(3)}) != 1:
+            ctx.violate(f"C18/{name}/not-reproducible", "same seed, different result", dict(fn=name, seed=7))
 
 
 def search(ctx):
